@@ -11,6 +11,17 @@ template<class C> static std::string poolCanon(C& c, C& other)
   for(auto* k = c.blocks; k && b < 500; k = k->next) ++b;
   return vf::fmt(" f%d b%d%s", f, b, (c.freeItem && c.freeItem == other.freeItem) ? " shared" : "");
 }
+// sentinel bookkeeping of the element list: in a correct implementation it follows from the element sequence; a wrong one
+// can leave it stale (a clear that forgets the back link), and the stale value decides the next insertion
+template<class C> static std::string linkCanon(C& c)
+{
+  auto* e = &c.endItem;
+  decltype(e) last = 0;
+  int n = 0;
+  for(auto* i = c._begin.item; i && i != e && n < 1000; i = i->next) { last = i; ++n; }
+  return vf::fmt(" n%d/%d end.prev=%s", n, (int)c._size, !e->prev ? "null" : e->prev == last ? "last" : "STALE");
+}
 #else
 template<class C> static std::string poolCanon(C&, C&) { return std::string(); }
+template<class C> static std::string linkCanon(C&) { return std::string(); }
 #endif
